@@ -112,12 +112,12 @@ func ruleFeatureConsumers(c *core.Ctx, rule string, filter func(target string) b
 				for _, cond := range conds {
 					n++
 					key := fmt.Sprintf("%s:reads:%s:needs:%s", fkey, t, cond)
-					bad, where := unguardedPaths(c, s.Encl, info, cl.Call, cond, condsOfTable(prods, t))
-					if len(bad) == 0 {
+					lifted := liftedUnguarded(c, s.Encl, info, cl.Call, cond, condsOfTable(prods, t), 0)
+					if len(lifted) == 0 {
 						c.Pass(rule, key, pos(c, cl.Call), "every non-error path through this read tests "+cond)
 					}
-					for _, b := range bad {
-						c.Fail(rule, key+":path-"+b, pos(c, cl.Call), fmt.Sprintf("%s is read here but rows exist in it only when %s; a path through this read (%s) reaches %s without a positive test of that feature — with the feature off it answers from an empty/stale table instead of reporting the missing feature (or falling back to current data)", t, cond, b, where[b]))
+					for _, lf := range lifted {
+						c.Fail(rule, fmt.Sprintf("%s:reads:%s:needs:%s:path-%s", lf.fkey, t, cond, lf.desc), pos(c, cl.Call), fmt.Sprintf("%s is read here but rows exist in it only when %s; a path through this read (%s) reaches %s without a positive test of that feature — with the feature off it answers from an empty/stale table instead of reporting the missing feature (or falling back to current data)", t, cond, lf.desc, lf.where))
 					}
 				}
 			}
@@ -156,12 +156,12 @@ func ruleFeatureConsumers(c *core.Ctx, rule string, filter func(target string) b
 					for _, cond := range conds {
 						n++
 						key := fmt.Sprintf("%s:reads:%s:needs:%s", fkey, target, cond)
-						bad, where := unguardedPaths(c, s.Encl, info, cl.Call, cond, condsOfTable(prods, tab))
-						if len(bad) == 0 {
+						lifted := liftedUnguarded(c, s.Encl, info, cl.Call, cond, condsOfTable(prods, tab), 0)
+						if len(lifted) == 0 {
 							c.Pass(rule, key, pos(c, cl.Call), "every non-error path through this read tests "+cond)
 						}
-						for _, b := range bad {
-							c.Fail(rule, key+":path-"+b, pos(c, cl.Call), fmt.Sprintf("column %s is read here but it is maintained only when %s; a path through this read (%s) reaches %s without a positive test of that feature", target, cond, b, where[b]))
+						for _, lf := range lifted {
+							c.Fail(rule, fmt.Sprintf("%s:reads:%s:needs:%s:path-%s", lf.fkey, target, cond, lf.desc), pos(c, cl.Call), fmt.Sprintf("column %s is read here but it is maintained only when %s; a path through this read (%s) reaches %s without a positive test of that feature", target, cond, lf.desc, lf.where))
 						}
 					}
 				}
@@ -169,6 +169,56 @@ func ruleFeatureConsumers(c *core.Ctx, rule string, filter func(target string) b
 		}
 	}
 	c.Floor(rule, "reads of feature-populated tables/columns", n, 4)
+}
+
+type liftedFinding struct {
+	fkey, desc, where string
+}
+
+// liftedUnguarded is unguardedPaths with caller context: when the read sits in an unexported
+// helper, the question is asked again at each of the helper's static call sites in the package
+// (a guard in the caller guards the read; an unguarded read is reported at — and keyed by — the
+// outermost function, so that extracting a helper neither hides a guard nor renames a finding).
+func liftedUnguarded(c *core.Ctx, fd *ast.FuncDecl, info *types.Info, node ast.Node, cond string, allConds []string, depth int) []liftedFinding {
+	bad, where := unguardedPaths(c, fd, info, node, cond, allConds)
+	if len(bad) == 0 {
+		return nil
+	}
+	if depth < 3 && !ast.IsExported(fd.Name.Name) {
+		var d *astx.DeclInfo
+		for _, dd := range index(c).Decls {
+			if dd.Decl == fd {
+				d = dd
+			}
+		}
+		if d != nil {
+			var out []liftedFinding
+			sites := 0
+			for _, s := range index(c).SitesOf(d.Obj) {
+				if s.Encl == nil || s.Encl == fd || s.Pkg != d.Pkg || strings.HasSuffix(c.Prog().Rel(s.Call.Pos()), "_test.go") {
+					continue
+				}
+				sites++
+				out = append(out, liftedUnguarded(c, s.Encl, s.Pkg.TypesInfo, s.Call, cond, allConds, depth+1)...)
+			}
+			if sites > 0 {
+				seen := map[string]bool{}
+				var uniq []liftedFinding
+				for _, o := range out {
+					if !seen[o.fkey+o.desc] {
+						seen[o.fkey+o.desc] = true
+						uniq = append(uniq, o)
+					}
+				}
+				return uniq
+			}
+		}
+	}
+	var out []liftedFinding
+	for _, b := range bad {
+		out = append(out, liftedFinding{enclKey(pkgStore, fd), b, where[b]})
+	}
+	return out
 }
 
 // unguardedPaths: the paths of the enclosing function that execute node, leave through an
